@@ -152,6 +152,44 @@ func withFeature(tag, feat string) string {
 	return strings.Join(f, ":")
 }
 
+// Cases are buffered and written in two groups: first every case of a class in which Go and
+// the specification are expected to agree, then the cases of the deviation classes recorded in
+// KNOWN_FINDINGS.txt (bin/check turns only the first spec mismatches into violations, so known
+// classes must not come first).
+type bufCase struct{ line, impl string }
+
+var plainCases, featuredCases []bufCase
+
+func addCase(caseLine, implLine string) {
+	featured := false
+	f := strings.Fields(caseLine)
+	if len(f) > 1 && f[0] == "dec" {
+		t := strings.Split(f[1], ":")
+		switch {
+		case t[0] == "foreign" && len(t) > 1 && t[1] != "plain":
+			featured = true
+		case t[0] == "portable" && len(t) > 2 && t[2] != "plain":
+			featured = true
+		case strings.Contains(t[0], "+"):
+			featured = true
+		}
+	}
+	if featured {
+		featuredCases = append(featuredCases, bufCase{caseLine, implLine})
+	} else {
+		plainCases = append(plainCases, bufCase{caseLine, implLine})
+	}
+}
+
+func flushCases(c *Ctx) {
+	for _, b := range plainCases {
+		c.Case(b.line, b.impl)
+	}
+	for _, b := range featuredCases {
+		c.Case(b.line, b.impl)
+	}
+}
+
 func checkStream(c *Ctx, tag string, payload []byte, viaPublic bool) {
 	c.D.Evaluations++
 	line, w, h, fy, fu, fv, pan := goDecode(payload)
@@ -165,10 +203,10 @@ func checkStream(c *Ctx, tag string, payload []byte, viaPublic bool) {
 	webp.VerifWithPortableDecoderKernels(func() { pline, _, _, _, _, _, _ = goDecode(payload) })
 	if pline != line {
 		c.Count("dispatched-kernels-differ-from-portable")
-		c.Case("dec "+withFeature(tag, "simd16")+" "+hex.EncodeToString(payload), line)
-		c.Case("dec portable:"+tag+" "+hex.EncodeToString(payload), pline)
+		addCase("dec "+withFeature(tag, "simd16")+" "+hex.EncodeToString(payload), line)
+		addCase("dec portable:"+tag+" "+hex.EncodeToString(payload), pline)
 	} else {
-		c.Case("dec "+tag+" "+hex.EncodeToString(payload), line)
+		addCase("dec "+tag+" "+hex.EncodeToString(payload), line)
 	}
 	c.Count("result:" + strings.SplitN(line, " ", 2)[0])
 	if viaPublic && strings.HasPrefix(line, "ok") {
@@ -277,5 +315,7 @@ func main() {
 		encoderStreams(c)
 		foreignStreams(c)
 		kernelCases(c)
+		alphCases(c)
+		flushCases(c)
 	})
 }
